@@ -16,6 +16,11 @@ class Prop(PropBase):
     ALL_EXHAUSTIVE = True
     ASSUMPTIONS = ["palette layout 16 + 36r + 6g + b / 232 + shade is the xterm 256-colour layout"]
 
+    @classmethod
+    def verdict_concerns(cls, v):
+        # the wire cases are judged by the terminal oracle, which tags rendering failures as C01
+        return "C19" in v or "C01@" in v
+
     @staticmethod
     def cases(tier, rng):
         cs = []
@@ -34,7 +39,7 @@ class Prop(PropBase):
         # the wire: each palette colour as foreground and as background of one element on a fresh terminal
         vals = list(range(16, 232)) if tier == "thorough" else list(range(16, 232, 1))
         for v in vals:
-            cs.append(Case("T 0 ; we 5 97 0 0 1 %d 0 0 0 9 0 0 22 24 27 25 ; we 5 98 0 0 0 9 0 0 1 %d 0 0 22 24 27 25" % (v, v), sweep="wire-high"))
+            cs.append(Case("T 0 ; we 5 97 0 0 1 %d 0 0 0 9 0 0 22 24 27 25 ; we 5 98 0 0 0 9 0 0 1 %d 0 0 22 24 27 25" % (v, v), sweep="wire-high", cfgs=["0 1 %d 0 5 2" % (v % 6)]))
         for v in range(232, 256):
-            cs.append(Case("T 0 ; we 5 97 0 0 2 %d 0 0 0 9 0 0 22 24 27 25 ; we 5 98 0 0 0 9 0 0 2 %d 0 0 22 24 27 25" % (v, v), sweep="wire-grey"))
+            cs.append(Case("T 0 ; we 5 97 0 0 2 %d 0 0 0 9 0 0 22 24 27 25 ; we 5 98 0 0 0 9 0 0 2 %d 0 0 22 24 27 25" % (v, v), sweep="wire-grey", cfgs=["2 0 %d 0 5 2" % (v % 6)]))
         return cs
